@@ -8,7 +8,8 @@ def c01_suites(tier):
 
 
 def c02_suites(tier):
-    return [gens.PNStringSuite(), gens.PermuteSuite(), gens.MethodRowsSuite(with_calls=False, with_reset=True), gens.GenHistorySuite()]
+    return [gens.PNStringSuite(), gens.PermuteSuite(), gens.MethodRowsSuite(with_calls=False, with_reset=True), gens.GenHistorySuite(),
+            gens.XmlMethodSuite()]
 
 
 def c03_suites(tier):
@@ -24,7 +25,7 @@ def c05_suites(tier):
 
 
 def c06_suites(tier):
-    return [system.StartStopSuite(), system.RandomSessionSuite(), system.StatementLevelSuite(), glue.GlueSuite()]
+    return [system.StartStopSuite(), system.RandomSessionSuite(), system.StatementLevelSuite(), glue.GlueSuite(), system.QueuedStartSuite()]
 
 
 def c07_suites(tier):
@@ -44,7 +45,7 @@ def c08_suites(tier):
 
 
 def c16_suites(tier):
-    return [system.CompositionSuite(), gens.GenHistorySuite(), glue.GlueSuite()]
+    return [system.CompositionSuite(), gens.GenHistorySuite(), glue.GlueSuite(), system.QueuedStartSuite()]
 
 
 def c09_suites(tier):
@@ -68,7 +69,7 @@ def c14_suites(tier):
 
 
 def c15_suites(tier):
-    return [timing.PullOffSuite(), system.RhythmSessionSuite(), timing.HoldUpSuite()]
+    return [timing.PullOffSuite(), system.RhythmSessionSuite(), timing.HoldUpSuite(), timing.TempoSuite()]
 
 
 def c10_suites(tier):
@@ -81,7 +82,7 @@ def c18_suites(tier):
 
 
 def c19_suites(tier):
-    return [system.ServerSuite(), conc.ConcSuite(), timing.SpeedChangeSuite(), system.GateSuite(), glue.GlueSuite()]
+    return [system.ServerSuite(), conc.ConcSuite(), timing.SpeedChangeSuite(), system.GateSuite(), glue.GlueSuite(), system.QueuedStartSuite()]
 
 
 PROPS = {
